@@ -134,7 +134,9 @@ class Interp(object):
     # statements (generators)
     # ------------------------------------------------------------------
     def exec_block(self, stmts, env):
-        for s in stmts:
+        for i, s in enumerate(stmts):
+            if isinstance(s, (ast.While, ast.For)) and not hasattr(s, '_pyvc_prev'):
+                s._pyvc_prev = stmts[:i]
             yield from self.exec_stmt(s, env)
 
     def exec_stmt(self, s, env):
@@ -418,16 +420,110 @@ class Interp(object):
             except ContinueSig:
                 continue
 
+    # ------------------------------------------------------------------
+    # automatic loop invariants for temporaries that cache an expression
+    # ------------------------------------------------------------------
+    _PURE_CALLS = ('os.path.', 'posixpath.')
+
+    def _pure_expr(self, e):
+        for n in ast.walk(e):
+            if isinstance(n, ast.Call):
+                f = n.func
+                parts = []
+                while isinstance(f, ast.Attribute):
+                    parts.append(f.attr)
+                    f = f.value
+                if not isinstance(f, ast.Name):
+                    return False
+                dotted = '.'.join([f.id] + parts[::-1])
+                if not (dotted.startswith(self._PURE_CALLS) or dotted in ('len', 'str')):
+                    return False
+                if n.keywords:
+                    return False
+            elif not isinstance(n, (ast.Name, ast.Attribute, ast.Constant, ast.BinOp,
+                                    ast.Add, ast.Sub, ast.Load, ast.Subscript,
+                                    ast.Slice, ast.UnaryOp, ast.USub)):
+                return False
+        return True
+
+    @staticmethod
+    def _assigned_names(stmts):
+        out = set()
+        for st in stmts:
+            for n in ast.walk(st):
+                if isinstance(n, ast.Name) and isinstance(n.ctx, ast.Store):
+                    out.add(n.id)
+        return out
+
+    def auto_equalities(self, s):
+        """[(x, E)] such that `x = E` (E pure) is the last assignment to x
+        both before the loop and in its body, with no variable of E assigned
+        afterwards in either place: `x == E` is then a candidate invariant.
+        It is CHECKED like a written one (init and preservation obligations),
+        so nothing is assumed; it only spares the written invariants from
+        mentioning incidental temporaries (e.g. `parent = dirname(path)`)."""
+        cached = getattr(s, '_pyvc_auto', None)
+        if cached is not None:
+            return cached
+        out = []
+        prev = getattr(s, '_pyvc_prev', None) or []
+        body = s.body
+        for i, st in enumerate(body):
+            if not (isinstance(st, ast.Assign) and len(st.targets) == 1 and
+                    isinstance(st.targets[0], ast.Name) and self._pure_expr(st.value)):
+                continue
+            x = st.targets[0].id
+            evars = set(n.id for n in ast.walk(st.value) if isinstance(n, ast.Name))
+            if x in evars:
+                continue
+            later = self._assigned_names(body[i + 1:])
+            if x in later or evars & later:
+                continue
+            dump = ast.dump(st.value)
+            for j in range(len(prev) - 1, -1, -1):
+                pj = prev[j]
+                if isinstance(pj, ast.Assign) and len(pj.targets) == 1 and \
+                        isinstance(pj.targets[0], ast.Name) and \
+                        pj.targets[0].id == x and ast.dump(pj.value) == dump:
+                    after = self._assigned_names(prev[j + 1:])
+                    if x not in after and not (evars & after):
+                        out.append((x, st.value))
+                    break
+                if x in self._assigned_names([pj]):
+                    break
+        s._pyvc_auto = out
+        return out
+
+    def _auto_inv(self, s, env, name, phase):
+        """phase 'init'/'pres': obligations; 'assume': facts at the loop head"""
+        ctx = self.ctx
+        for x, E in self.auto_equalities(s):
+            if x not in env.vars:
+                continue
+            try:
+                v = self.eval(E, env)
+                eq = self.equals(env.vars[x], v)
+            except (PyExc, OutsideSubset):
+                continue
+            f = eq.t if is_sym(eq) else z3.BoolVal(bool(eq))
+            if phase == 'assume':
+                ctx.assume(f)
+            else:
+                ctx.oblige('%s/auto-inv-%s/%s-caches-its-expression' % (name, phase, x),
+                           f, kind='inv-' + phase)
+
     def cut_while(self, s, env, annot, key):
         ctx = self.ctx
         name = '%s.%s/loop%d' % key
         annot.used = True
         for n, f in annot.invariant(self, env):
             ctx.oblige('%s/inv-init/%s' % (name, n), f, kind='inv-init')
+        self._auto_inv(s, env, name, 'init')
         self.freeze_for_loop(env)
         self.havoc_locals(s, env, annot)
         if annot.havoc_ghost:
             annot.havoc_ghost(self, env)
+        self._auto_inv(s, env, name, 'assume')
         for n, f in annot.invariant(self, env):
             ctx.assume(f)
         v0 = annot.variant(self, env) if annot.variant else None
@@ -447,6 +543,7 @@ class Interp(object):
             del self.loop_frames[depth - 1:]
             raise
         self.end_loop_frame(annot, name)
+        self._auto_inv(s, env, name, 'pres')
         for n, f in annot.invariant(self, env):
             ctx.oblige('%s/inv-pres/%s' % (name, n), f, kind='inv-pres')
         if v0 is not None:
